@@ -36,9 +36,18 @@ def main():
     except SystemExit as e:
         # the code under test called sys.exit (e.g. the dispatcher giving up while starting): the run could not be made;
         # exit 1 is reserved for VIOLATION lines
-        traceback.print_exc()
-        print("INFRA-ERROR %s: the code under test called sys.exit(%s) outside a simulator step" % (a.prop, e.code))
-        return 2
+        # — with the engine unable to start or run, no property is shown to hold: reported as a violation whose replay is
+        # "start the engine" (exit 1 always comes with a VIOLATION line)
+        tb = traceback.format_exc()
+        import json
+        os.makedirs(os.path.join(common.VERIF, "replays"), exist_ok=True)
+        name = "replays/%s-%d-engine-exit.json" % (a.prop, seed)
+        with open(os.path.join(common.VERIF, name), "w") as f:
+            json.dump({"property": a.prop, "kind": "engine-exits", "what": "the code under test called sys.exit(%s) while the "
+                       "harness was starting or driving it (outside a simulator step)" % (e.code,), "traceback": tb[-3000:],
+                       "replay_cmd": "/venv/bin/python harness/check.py %s --tier %s" % (a.prop, a.tier)}, f, indent=1)
+        chk.violations.append((name, ""))
+        return chk.finish()
 
 
 if __name__ == "__main__":
